@@ -301,15 +301,36 @@ pub fn run_protocol(input: &[u8], sizes: &[usize], script: Vec<Resp>, op: &str, 
 }
 
 /// mechanism B: seeded long grammar inputs x random fault scripts x all four write paths
+/// "head ESC[1m <L x> ESC[0m tail\n" for L around 128, 256, 1024, 4096
+pub fn threshold_family(deep: bool) -> Vec<Vec<u8>> {
+    let mut v = Vec::new();
+    let ls: &[usize] = if deep { &[127, 128, 129, 255, 256, 257, 1023, 1024, 1025, 4095, 4096, 4097] } else { &[127, 128, 129, 255, 256, 257, 1023, 1024, 1025] };
+    for &l in ls {
+        let mut b = b"head \x1b[1m".to_vec();
+        b.extend((0..l).map(|i| b'a' + (i % 26) as u8));
+        b.extend_from_slice(b"\x1b[0m tail\n");
+        v.push(b);
+    }
+    v
+}
+
 pub fn record(seed: u64, runs: u64, target: usize, path: &str, max_profile: usize) -> Value {
     use crate::gen::{gen_stream, Flavor};
     let mut w = crate::out_file(path);
     let mut r = crate::rng::Rng::new(seed);
     let (mut events, mut bytes) = (0u64, 0u64);
     for k in 0..runs {
-        let op = ["write", "write_all", "vectored", "write_fmt", "write", "write_fmt_lit", "write", "vectored"][(k % 8) as usize];
+        let mut op = ["write", "write_all", "vectored", "write_fmt", "write", "write_fmt_lit", "write", "vectored"][(k % 8) as usize];
         let flavor = if op == "write_fmt" || r.chance(1, 3) { Flavor::Utf8 } else { Flavor::Full };
-        let input = gen_stream(&mut r, target, flavor);
+        let mut input = gen_stream(&mut r, target, flavor);
+        // threshold family (first runs of the shards whose seed is a multiple of 4): a short run, a sequence, then an escape-free
+        // run whose length sits on a typical buffer size - in ONE call (pending-buffer and gather optimisations)
+        let family = threshold_family(target >= 1000);
+        let fam = seed % 4 == 0 && (k as usize) < family.len();
+        if fam {
+            input = family[k as usize].clone();
+            op = ["write_all", "write_fmt", "write"][(k % 3) as usize];
+        }
         bytes += input.len() as u64;
         // fault profile: 0 = short writes only, 1 = + Interrupted, 2 = + rare hard errors
         let profile = r.below(3).min(max_profile);
@@ -331,7 +352,11 @@ pub fn record(seed: u64, runs: u64, target: usize, path: &str, max_profile: usiz
             });
         }
         let k = *r.pick(&[1usize, 2, 3, 7, 16, 64, 1000]);
-        let sizes: Vec<usize> = (0..8).map(|_| r.range(1, k)).collect();
+        let mut sizes: Vec<usize> = (0..8).map(|_| r.range(1, k)).collect();
+        if fam {
+            sizes.clear();          // one call for the whole buffer
+            script.clear();         // a reliable inner writer
+        }
         let target_kind = if r.chance(1, 3) { Target::AutoNever } else { Target::Strip };
         let mut evs = Vec::new();
         run_protocol(&input, &sizes, script, op, target_kind, &mut evs);
